@@ -61,7 +61,7 @@ def run_layout(job):
     # the config file itself: current_version must equal the announced version (black box, no spec operator needed)
     cfg_after = a.get(lay.cfg_format, b"").decode("utf-8", "replace")
     facts = dict(seed=seed, vp=lay.vp, old=lay.old_version, new=new, exit=exit_code, exc=exc, flags=lay.flags, locale_c=locale_c,
-                 cfg_has_new=(new is not None and ('current_version = "%s"' % new) in cfg_after and (not lay.cfg_glob or ("# note: %s\n" % new) in cfg_after)),
+                 cfg_has_new=(new is not None and ('current_version = "%s"' % new) in cfg_after and (not lay.cfg_glob or ("# note: %s\r\n" % new if lay.cfg_crlf else "# note: %s\n" % new) in cfg_after) and (("\r\n" in cfg_after and "\n" not in cfg_after.replace("\r\n", "")) if lay.cfg_crlf else "\r" not in cfg_after)),
                  cfg_glob=lay.cfg_glob,
                  untouched_changed=[k for k in lay.unconfigured if before.get(k) != after.get(k)],
                  extra_files=sorted(set(a) - set(b)), n_files=len(lay.files),
